@@ -65,6 +65,14 @@ func parseVersion1(reader *bufio.Reader) (*Header, error) {
 		return nil, ErrCantReadProtocolVersionAndCommand
 	}
 	tokens := strings.Split(line[:len(line)-2], SEPARATOR)
+	// "PROXY UNKNOWN\r\n" is a complete header: for UNKNOWN the receiver must
+	// ignore anything presented before the CRLF.
+	if len(tokens) >= 2 && tokens[1] == "UNKNOWN" {
+		header := initVersion1()
+		header.TransportProtocol = UNSPEC
+		state.ProxyNormalV1Header.Inc(1)
+		return header, nil
+	}
 	if len(tokens) < 6 {
 		state.ProxyErrInvalidHeader.Inc(1)
 		return nil, ErrCantReadProtocolVersionAndCommand
